@@ -47,6 +47,11 @@ def run(ck):
     import parsefields
     import skeleton
     parsefields.check(ck, lib, skeleton.Skeleton(ck, lib), "C01-F", ("empty",))
+    # "reports exactly one -113": with the library's own error handling (ErrorCommands) a report is an entry of the queue -
+    # every error handed in is stored, none is dropped or merged with its predecessor (the push rule of C09)
+    import c09
+    with ck.under("C09-", "C01-C09"):
+        c09.rule_push(ck, lib, c09.storage_place(ck, lib))
     # the node a relative header is looked up in: root at the start of every message (else a header with a missing
     # level would be accepted relative to a stale path)
     import c02
